@@ -154,7 +154,8 @@ type StatementExpr struct {
 }
 
 type StatementReturn struct {
-	Expr Expr
+	token Token
+	Expr  Expr
 }
 
 type StatementBreak struct {
@@ -214,7 +215,7 @@ func (*StatementForIn) statementNode()    {}
 func (stmt *StatementBlock) Token() Token    { return stmt.token }
 func (stmt *StatementPrint) Token() Token    { return stmt.token }
 func (stmt *StatementExpr) Token() Token     { return stmt.Expr.Token() }
-func (stmt *StatementReturn) Token() Token   { return stmt.Expr.Token() }
+func (stmt *StatementReturn) Token() Token   { return stmt.token }
 func (stmt *StatementBreak) Token() Token    { return stmt.token }
 func (stmt *StatementContinue) Token() Token { return stmt.token }
 func (stmt *StatementNext) Token() Token     { return stmt.token }
